@@ -67,7 +67,8 @@ NEXT_BASE = {"cfg": {"algo": "SHA-256", "depth": 2, "width": 2}, "contents": [{"
 def enumerate_cases(tier):
     for name in NEXT_TO:
         for first in (0, 1):
-            yield dict(NEXT_BASE, family="next-to", pair=name, start=NEXT_TO[name][0], firsts=[first])
+            for sticky in (False, True, "full"):
+                yield dict(NEXT_BASE, family="next-to", pair=name, start=NEXT_TO[name][0], firsts=[first], sticky=sticky)
 
 
 def case_cost(case):
@@ -75,13 +76,29 @@ def case_cost(case):
 
 
 class _ThreadFault:
-    """One-off EIO at the k-th fault site of thread 0 (sites counted over that thread's own operations only)."""
+    """EIO at the k-th fault site of thread 0 (sites counted over that thread's own operations only): once, or (sticky)
+    persisting for that destination path for the rest of thread 0's call."""
 
-    def __init__(self, k):
-        self.k, self.n, self.fired = k, 0, None
+    def __init__(self, k, sticky=False):
+        self.k, self.n, self.fired, self.sticky = k, 0, None, sticky
 
     def __call__(self, t, ev):
-        if t is None or t.idx != 0 or self.fired is not None or not fault.is_site(ev):
+        if t is None or t.idx != 0 or not fault.is_site(ev):
+            return
+        if self.sticky == "full":
+            # the disk fills up under thread 0's call: from its k-th operation that needs space on, every such operation of
+            # thread 0 fails with ENOSPC (removals keep working); what thread 1 does had its space before
+            if ev.kind not in fault.SPACE:
+                return
+            if self.fired is not None or self.n == self.k:
+                if self.fired is None:
+                    self.fired = ev
+                raise OSError(fault.ERRNOS["ENOSPC"], "No space left on device [injected]", ev.dest)
+            self.n += 1
+            return
+        if self.fired is not None:
+            if self.sticky and self.fired.dest in ev.paths:
+                raise OSError(fault.ERRNOS["EIO"], "Input/output error [injected, persisting]", ev.dest)
             return
         if self.n == self.k:
             self.fired = ev
@@ -117,7 +134,7 @@ def _next_to_case(case, ctx):
     total = 0
     while k < 200:
         fired_any = False
-        fac = lambda k=k: _ThreadFault(k)   # noqa
+        fac = lambda k=k: _ThreadFault(k, case.get("sticky", False))   # noqa
         fac.is_factory = True
         for order, pre, ex, stats in conc.conflict_directed_schedules(world, calls, max_preempt=1, firsts=tuple(case["firsts"]),
                                                                       extra_on_op=fac, keep_dir=True):
@@ -128,10 +145,11 @@ def _next_to_case(case, ctx):
                 fired_any = True
                 ctx.count()
                 total += 1
-                where = (f"[{case['pair']}] thread0={conc.op_pattern(faulted, world)}:{faulted.get('pid')} with EIO once at its fault site #{k} "
+                where = (f"[{case['pair']}] thread0={conc.op_pattern(faulted, world)}:{faulted.get('pid')} with {'ENOSPC from then on at every operation of that thread that needs space' if case.get('sticky') == 'full' else 'EIO persisting for the destination' if case.get('sticky') else 'EIO once'} at its fault site #{k} "
                          f"[{inj.fired.brief(os.path.realpath(ex.dir))}], thread1={conc.op_pattern(clean, world)}:{clean.get('pid')} clean; "
                          f"order={order} preemptions={pre}; outcomes {ex.outcomes}")
-                sig = {"family": "next-to", "pair": case["pair"], "site": inj.fired.kind, "path_class": fault.path_class(ex.dir, inj.fired)}
+                sig = {"family": "next-to", "pair": case["pair"], "site": inj.fired.kind, "path_class": fault.path_class(ex.dir, inj.fired),
+                       "mode": "disk-full" if case.get("sticky") == "full" else "sticky" if case.get("sticky") else "one-off"}
                 if ex.deadlock:
                     ctx.violation("deadlock", f"{where}: no thread runnable: {ex.deadlock}", dict(sig, failure="deadlock"))
                     continue
